@@ -15,6 +15,7 @@ mod c10;
 mod semcheck;
 mod c11;
 mod c12;
+mod c13;
 mod c14;
 
 type ReplayFn = fn(&Ctx, &J) -> Result<(), String>;
@@ -34,6 +35,7 @@ fn table(prop: &str) -> Option<(RunFn, ReplayFn)> {
     "C10" => (c10::run, c10::replay),
     "C11" => (c11::run, c11::replay),
     "C12" => (c12::run, c12::replay),
+    "C13" => (c13::run, c13::replay),
     "C14" => (c14::run, c14::replay),
     _ => return None,
   })
